@@ -19,6 +19,7 @@ type Hooks struct {
 
 	rebuildEnter, rebuildExit int64
 	bgflushSpawn, bgflushExit int64
+	flushOld                  int64 // chunk-specific flushes issued synchronously by Close
 	mergeSpawn, mergeExit     int64
 	flushEnter, flushExit     int64
 	gcEnter, gcExit           int64
@@ -52,6 +53,8 @@ func (h *Hooks) onPoint(name string, a, b int64, s string) {
 		atomic.AddInt64(&h.rebuildExit, 1)
 	case "data.bgflush.spawn":
 		atomic.AddInt64(&h.bgflushSpawn, 1)
+	case "data.flushold":
+		atomic.AddInt64(&h.flushOld, 1)
 	case "data.flush.enter":
 		atomic.AddInt64(&h.flushEnter, 1)
 	case "data.flush.exit":
@@ -134,7 +137,7 @@ func (h *Hooks) Counts() map[string]int64 {
 // running (logical condition on enter/exit events, no timing involved).
 func (h *Hooks) Quiescent() bool {
 	return atomic.LoadInt64(&h.rebuildEnter) == atomic.LoadInt64(&h.rebuildExit) &&
-		atomic.LoadInt64(&h.bgflushSpawn) == atomic.LoadInt64(&h.bgflushExit) &&
+		atomic.LoadInt64(&h.bgflushSpawn) == atomic.LoadInt64(&h.bgflushExit)-atomic.LoadInt64(&h.flushOld) &&
 		atomic.LoadInt64(&h.mergeSpawn) == atomic.LoadInt64(&h.mergeExit) &&
 		atomic.LoadInt64(&h.flushEnter) == atomic.LoadInt64(&h.flushExit) &&
 		atomic.LoadInt64(&h.gcEnter) == atomic.LoadInt64(&h.gcExit)
